@@ -2888,7 +2888,8 @@ class Angle(AngleBase):
             mat = Py_Matrix.from_angle(self)
             mat @= other
             return mat._to_angle(self)  # Inplace
-        elif isinstance(other, Py_Matrix):
+        elif isinstance(other, MatrixBase):
+            # Frozen matrices too: the operand is only read.
             mat = Py_Matrix.from_angle(self)
             mat._mat_mul(other)
             return mat._to_angle(self)
